@@ -131,6 +131,7 @@ type contractRun struct {
 	touched   map[types.Address]bool
 	tokens    map[types.ZenonTokenStandard]bool
 	dumped    bool
+	cons      *consMonitor // C01 conservation read from the real stores at every momentum (mon_conservation.go)
 }
 
 func (r *contractRun) fail(format string, a ...interface{}) {
@@ -411,6 +412,10 @@ func (r *contractRun) onMomentum(dm *nom.DetailedMomentum) {
 		return a.Height < b.Height
 	})
 	h := dm.Momentum.Height
+	// C01: recorded supply = balances of all accounts + confirmed-unreceived sends, for every recorded token, at every momentum
+	if r.cons != nil && !r.cons.checkConfirmed(fmt.Sprintf("momentum %d with %d account blocks", h, len(dm.AccountBlocks))) {
+		r.failed = true
+	}
 	// C05: the election's input (pillar weights) against the pillar contract's storage and the balances
 	switch w := pillarWeightsMonitor(store); w {
 	case "":
@@ -1640,6 +1645,7 @@ func contractHistory(c *Ctx, id int) {
 		return
 	}
 
+	r.cons = newConsMonitor(c, n, fmt.Sprintf("contract run=%d", id))
 	n.OnMomentum = r.onMomentum
 	momentum := func() bool {
 		if _, err := n.Momentum(); err != nil {
